@@ -28,7 +28,10 @@ Forms == <<
   G("x",          "x",       "",  <<>>,         <<>>,             FALSE, FALSE),
   G("body",       "body",    "",  <<>>,         <<>>,             FALSE, FALSE),
   [G("xsl:variable[name=n select=s]", "xsl:variable", "", <<>>, <<>>, FALSE, FALSE) EXCEPT !.attrs = <<<<"name", "n">>, <<"select", "s">>>>],
-  [G("xsl:with-param[select=s]#k", "xsl:with-param", "k", <<>>, <<>>, FALSE, FALSE) EXCEPT !.attrs = <<<<"select", "s">>>>] >>
+  [G("xsl:with-param[select=s]#k", "xsl:with-param", "k", <<>>, <<>>, FALSE, FALSE) EXCEPT !.attrs = <<<<"select", "s">>>>],
+  [G("label#a[for=x]", "label", "a", <<>>, <<>>, FALSE, FALSE) EXCEPT !.attrs = <<<<"for", "x">>>>],          \* label + input: the label addon rewrites attribute lists
+  [G("input[type=t]/", "input", "", <<>>, <<>>, TRUE, FALSE) EXCEPT !.attrs = <<<<"type", "t">>>>],
+  G("div{${1}${2:tail}}", "div", "", <<>>, <<"tail">>, FALSE, FALSE) >>                                         \* text made of two adjacent fields: children go to the first
 FormKey(k) == "G" \o ToString(k)
 KeyIdx(key) == CHOOSE k \in 1..Len(Forms) : FormKey(k) = key
 GNext == \/ \E k \in FormIdx : Item(Forms[k].s, FormKey(k), Forms[k].sc)
@@ -46,6 +49,10 @@ Content == GResolve(<<>>, ContractListing)
 MlKids == \E i \in 1..Len(nodes) : nodes[i].kind = "e" /\ Len(Forms[KeyIdx(nodes[i].name)].text) > 1 /\ \E j \in 1..Len(nodes) : nodes[j].parent = i
 \* some element has multi-line text (its content is laid out on lines of its own whatever the options say)
 MlText == \E i \in 1..Len(nodes) : nodes[i].kind = "e" /\ Len(Forms[KeyIdx(nodes[i].name)].text) > 1
+\* an element whose text holds a field has children: they are spliced into the first field and the rest of the text follows them on
+\* the line of the closing tag (known finding F35)
+HasField(f) == \E k \in 1..(Len(f.s) - 1) : SubSeq(f.s, k, k + 1) = "${"
+FieldKids == \E i \in 1..Len(nodes) : nodes[i].kind = "e" /\ HasField(Forms[KeyIdx(nodes[i].name)]) /\ \E j \in 1..Len(nodes) : nodes[j].parent = i
 ContentInv == Complete => Len(Content) = Len(MachineListing)
-GDump == Complete => PrintT(<<"VEC", ToJson([abbr |-> abbr, content |-> Content, mlkids |-> MlKids, mltext |-> MlText])>>)
+GDump == Complete => PrintT(<<"VEC", ToJson([abbr |-> abbr, content |-> Content, mlkids |-> MlKids, mltext |-> MlText, fieldkids |-> FieldKids])>>)
 =============================================================================
